@@ -12,7 +12,8 @@ SPEC = dict(
                "fresh child process (cwd = directory with the files, RLIMIT_AS 3 GiB) that calls LoadEmbeddings and searches; the parent "
                "reads exit status, stderr and ru_maxrss. (3) For generated databases, answers of child processes with no files, with "
                "provably inert files and with active files are compared query by query (one query in seven carries text whose case mappings change its "
-               "encoded length). Exploration with per-class coverage floors, not proof.",
+               "encoded length). Histories also reload the embedding files on the same database after cmd_embeddings.bin was replaced (complete, or cut short "
+               "by a few bytes); a database of 4096-7001 entries with a row for every entry is searched under processor counts 1-256. Exploration with per-class coverage floors, not proof.",
     level_note="Trusted: the harness generators and its own cosine (used only to classify generated files as inert), Linux ru_maxrss / "
                "RLIMIT_AS accounting, the Go runtime's fatal-error text. LoadEmbeddings is reached exactly as the CLI reaches it "
                "(files resolved relative to the cwd); nothing in /repo is hooked.",
@@ -39,13 +40,13 @@ SPEC = dict(
          "at every limit: order, score-nonfinite. A suspected violation is re-run with 6+6 repetitions and reported only if no pairing of a "
          "with-files run and a no-files run satisfies the clause; if the no-files runs disagree among themselves it is inconclusive. "
          "Non-trivial = distinct (database, query) where at least one entry's score actually rose with active files.",
-    floors=T({"history-pairs-literal": 200, "history-pairs-after-growth": 150, "history-pairs-raised": 300, "evaluations": 75000, "distinct_nontrivial": 1000,
+    floors=T({"big-table-searches": 100, "history-reloads-of-embedding-files": 60, "history-pairs-literal": 200, "history-pairs-after-growth": 150, "history-pairs-raised": 300, "evaluations": 75000, "distinct_nontrivial": 1000,
               "cos-random": 10000, "cos-self": 3000, "cos-zero": 4000, "cos-mismatch": 5000, "cos-empty": 1500, "cos-extreme": 4000,
               "files-truncation": 1600, "files-huge-count": 40, "files-wrong-dim": 90, "files-wordlen": 30, "files-zero": 7, "files-stream": 11,
               "files-random": 115, "files-inflated": 8, "files-valid": 15, "files-valid-loaded": 20,
               "inert-pairs": 12000, "inert-nonempty": 6000, "inert-zero-cmd-vectors": 3000, "inert-disjoint-vocabulary": 3000,
               "inert-below-floor": 3000, "active-pairs": 3500, "active-raised": 2000, "active-reordered": 500, "active-nonfinite-raised": 500},
-             {"evaluations": 750000, "distinct_nontrivial": 10000,
+             {"big-table-searches": 500, "history-reloads-of-embedding-files": 2000, "evaluations": 750000, "distinct_nontrivial": 10000,
               "cos-random": 100000, "cos-self": 30000, "cos-zero": 40000, "cos-mismatch": 50000, "cos-empty": 15000, "cos-extreme": 40000,
               "files-truncation": 12000, "files-huge-count": 200, "files-wrong-dim": 90, "files-wordlen": 30, "files-zero": 7, "files-stream": 11,
               "files-random": 1400, "files-inflated": 8, "files-valid": 15, "files-valid-loaded": 20,
